@@ -2,7 +2,7 @@
 //!
 //! Case: `<script> <query> <arg>…` (the same tokens the Lean driver reads)
 //!   script  = comma list of `n<k>:<v>` (node), `d<a>:<b>` (dependency a→b), `x<k>` (remove); `-` = empty
-//!   queries = `dump` | `sorted <ranks>` | `fold <roots> <brk>` | `prune <roots> <brk> <mode>` |
+//!   queries = `dump` | `orders <k>` (same graph with the edges inserted in up to k orders) | `sorted <ranks>` | `fold <roots> <brk>` | `prune <roots> <brk> <mode>` |
 //!             `remove <k>` | `merge <script2>`
 //!   ranks   = comma list `k:r` (default rank 0) — `sorted_by` compares ranks only (ties exercise stability)
 //!   brk     = keys at which the filter answers `Break`
@@ -275,6 +275,43 @@ fn run_case(input: &str) -> Outcome {
             }
             format!("ok {}", dump(&v))
         }),
+        ("orders", [k]) => {
+            // the same nodes and edges, with the `dependency` calls in (up to) k different orders: the graph built
+            // must not depend on the insertion order
+            let Ok(k) = k.parse::<usize>() else { return Outcome::new("bad-case").trivial() };
+            let nodes: Vec<Op> = ops.iter().filter(|o| matches!(o, Op::Node(..))).cloned().collect();
+            let deps: Vec<Op> = ops.iter().filter(|o| matches!(o, Op::Dep(..))).cloned().collect();
+            if nodes.len() + deps.len() != ops.len() {
+                return Outcome::new("bad-case").trivial();
+            }
+            catch(|| {
+                let g0 = build(&ops);
+                let v0 = view(&g0, &uni);
+                let mut idx: Vec<usize> = (0..deps.len()).collect();
+                let mut n = 0;
+                // lexicographic permutations of the edge list
+                loop {
+                    let mut ops2 = nodes.clone();
+                    ops2.extend(idx.iter().map(|i| deps[*i].clone()));
+                    let v = view(&build(&ops2), &uni);
+                    if v != v0 {
+                        o.violations.push(("build-order-dependent".into(), format!("edge order {idx:?} builds {} instead of {}", dump(&v), dump(&v0))));
+                        break;
+                    }
+                    n += 1;
+                    if n >= k {
+                        break;
+                    }
+                    // next permutation
+                    let Some(i) = (0..idx.len().saturating_sub(1)).rev().find(|i| idx[*i] < idx[*i + 1]) else { break };
+                    let j = (i + 1..idx.len()).rev().find(|j| idx[*j] > idx[i]).unwrap();
+                    idx.swap(i, j);
+                    idx[i + 1..].reverse();
+                }
+                o.tags.push(format!("orders-tried-{}", match n { 0..=1 => "1", 2..=6 => "2-6", 7..=24 => "7-24", _ => "25+" }));
+                format!("ok {}", dump(&v0))
+            })
+        }
         ("sorted", [rk]) => {
             let Some(rk) = (if *rk == "-" { Some(vec![]) } else { rk.split(',').map(pair).collect::<Option<Vec<_>>>() }) else {
                 return Outcome::new("bad-case").trivial();
@@ -520,6 +557,9 @@ fn queries(labels: &[u64], vals: &[u64], edges: &[(usize, usize)], rng: &mut Rng
     let n = labels.len();
     let s = script(labels, vals, edges, rng, true);
     out.push(format!("{s} dump"));
+    if !edges.is_empty() {
+        out.push(format!("{s} orders {}", if edges.len() <= 4 { 24 } else { 60 }));
+    }
     out.push(format!("{s} sorted -"));
     out.push(format!("{s} sorted {}", ranks(labels, rng)));
     let roots = roots_of(labels, edges);
